@@ -130,7 +130,7 @@ def run_scenario(scn):
         histories = []
         for h in range(scn["n_hist"]):
             rng = rng_for(scn["hist_seed"], "hist", h)
-            histories.append(hs.gen_ops(rng, scn["spec"], rng.choice([6, 12, 20, 30])))
+            histories.append(hs.gen_ops(rng, scn["spec"], rng.choice([6, 12, 20, 30]), allow_derive=True))
     sample = None
     for h, ops in enumerate(histories):
         m = run_history(scn, ops)
